@@ -68,6 +68,9 @@ pub struct Poly {
 impl Poly {
     /// a seeded polynomial in which every variable occurs, with mixed terms, total degree <= max_deg
     pub fn gen(r: &mut Rng, nvars: usize, max_deg: u8, simple: bool) -> Poly {
+        if nvars == 0 {
+            return Poly { nvars, terms: vec![([3, -2, 1][r.below(3)], vec![])] };
+        }
         let mut terms: Vec<(i64, Vec<u8>)> = vec![];
         if simple {
             // x0 * x1 * ... (up to three factors) + 2 * x_last^2 + x_i for every i
